@@ -119,4 +119,26 @@ def reviewedOrder : List Nat := [
   N.«call ChainService.addrManager.Stop», N.«call ChainService.filterBatchWriter.Stop», N.«close ChainService.quit»,
   N.«wait ChainService.wg»]
 
+/-! ### WaitGroup balance (`Gen.StopSites.wgAdds` / `wgDones`)
+
+An `Add` whose slot is handed back by `defer wg.Done()` at the top of the goroutine it launches (`go-defer`,
+`loop-go-defer`) is balanced by construction.  Everything else needs a reviewed entry here. -/
+
+structure WgReview where
+  fn : Nat
+  wg : Nat
+  /-- nobody ever waits on this group (checked against the site table) -/
+  unwaited : Bool
+  reason : String
+
+def wgReviewed : List WgReview := [
+  ⟨N.«ChainService.Start», N.«ChainService.wg», false,
+     "go-done: the goroutine is peerHandler, whose single exit path (after its loop and the drain loop, no return statement in between) ends with s.wg.Done()"⟩,
+  ⟨N.«UtxoScanner.Start», N.«UtxoScanner.wg», true,
+     "never handed back and never waited for: UtxoScanner.Stop waits for batchManager on the `shutdown` channel (site UtxoScanner.Stop:UtxoScanner.shutdown), not on this group"⟩]
+
+/-- explicit `Done` calls (not the top-level defer of a goroutine's function) that were reviewed -/
+def wgDoneReviewed : List (Nat × Nat × String) := [
+  (N.«ChainService.peerHandler», N.«ChainService.wg», "the last statement but one of peerHandler; pairs with the Add in ChainService.Start")]
+
 end Neutrino.Shutdown
